@@ -615,19 +615,23 @@ def WorkerSt.checkExpired (w : WorkerSt) (prog : Prog) (now : Nat) (ordQ : List 
   let ex := orderBy ordQ (w.expired prog now)
   { w with queue := w.queue ++ ex, selecting := w.selecting.filter (· ∉ ex) }
 
-/-- The finished branch of `Executor::step`: store the result and notify / fail the awaiters that
-live on the same executor (every process whose `awaiting` map has the key). -/
-def WorkerSt.finish (w : WorkerSt) (cur : Pid) (x : Proc) (ordQ : List Pid) : WorkerSt :=
-  let res : Res := match x.result with
-    | some .err => .err
-    | _ => .ok x.value
-  let w1 := { w with procs := upd w.procs cur (some { x with result := some res }) }
-  let awaiters := orderBy ordQ (w1.pids.filter (fun a => match w1.procs a with
+/-- the result a finishing process stores: the error already set during execution, else its value -/
+def Proc.finalRes (x : Proc) : Res :=
+  match x.result with
+  | some .err => .err
+  | _ => .ok x.value
+
+/-- processes on this executor whose `awaiting` map has the key `cur` -/
+def WorkerSt.localAwaiters (w : WorkerSt) (cur : Pid) : List Pid :=
+  w.pids.filter (fun a => match w.procs a with
     | some y => (alookup y.awaiting cur).isSome
-    | none => false))
-  awaiters.foldl (fun acc a => match res with
-    | .ok v => acc.notifyResultOk a cur v
-    | .err => acc.notifyFailure a cur) w1
+    | none => false)
+
+/-- The finished branch of `Executor::step`: store the result and notify the awaiters that live on
+the same executor (`notify_result` / `notify_failure`). -/
+def WorkerSt.finish (w : WorkerSt) (cur : Pid) (x : Proc) (ordQ : List Pid) : WorkerSt :=
+  let w1 := { w with procs := upd w.procs cur (some { x with result := some x.finalRes }) }
+  (orderBy ordQ (w1.localAwaiters cur)).foldl (fun acc a => acc.notifyResult a cur x.finalRes) w1
 
 /-- One `Executor::step` of worker `i` followed by `handle_action`. -/
 def execStep (s : Sys) (i : Wid) (fuel : Nat) (ordQ : List Pid) : Sys :=
